@@ -193,7 +193,7 @@ static void ctl_hook(int pt, const void * a, const void * b, long v) {
   if (abspt == MYTH_VP_BLOCK_CB_END) ctl_cbfor[p] = -1;
   /* run-queue internals (spin-lock CAS, fences, work-stealing queue accesses, ids 200..299) are neutral
      for the deadlock verdict: an idle worker's failed steal attempts are not progress */
-  int neutral = abspt >= 200 && abspt < 300;
+  int neutral = (abspt >= 200 && abspt < 300) || (abspt == MYTH_VP_SQ_DEQ && b == 0);   /* a dequeue that found the queue empty is not progress either */
   if (neutral) {
     /* nothing */
   } else if (spin) {
